@@ -16,6 +16,7 @@ import (
 	"fmt"
 	"io"
 	"net"
+	"net/netip"
 	"os"
 	"strconv"
 	"strings"
@@ -399,6 +400,21 @@ func TestVerifC06Std(t *testing.T) {
 		case "join":
 			r.Ok = true
 			r.X = vc06Hex(net.JoinHostPort(string(a), string(b)))
+		case "parseaddr":
+			// X = AsSlice, Y = zone, Net.IP = net.ParseIP (hex), Net.Mask = "01" when ParseIP is non-nil
+			if ad, err := netip.ParseAddr(string(a)); err == nil {
+				r.Ok = true
+				r.X = hex.EncodeToString(ad.AsSlice())
+				r.Y = vc06Hex(ad.Zone())
+			}
+			if ip := net.ParseIP(string(a)); ip != nil {
+				r.Net = vc06Net{hex.EncodeToString(ip), "01"}
+			}
+		case "ipstr":
+			r.Ok = true
+			if len(a) != 0 {
+				r.X = vc06Hex(net.IP(a).String())
+			}
 		case "contains":
 			_, n, err := net.ParseCIDR(c.CIDR)
 			if err == nil {
